@@ -516,10 +516,14 @@ def run_tool_tier(rep, mod, tool, shards, procs=None):
         return
     os.environ["VERIF_TOOL"] = tool
     t0 = time.time()
+    from . import gen as _gen
+    if tool == "miri":
+        _gen.set_big(3, 2)
     try:
         parts = pmap(mod.run_shard, shards, procs)
     finally:
         os.environ.pop("VERIF_TOOL", None)
+        _gen.set_big(*_gen._BIG)
     ev = 0
     for part in parts:
         ev += part.get("evaluations", 0)
